@@ -309,7 +309,25 @@ class Summaries:
                     stack.append(v.cid)
                 elif v is _MISSING:
                     maybe = True
+        if not maybe:
+            # in-order list of the instances (the walk above is not in-order: sort by in-order position)
+            order = self._inorder(it, hv, selfv.cid)
+            definite.sort(key=lambda n: order.index(n.cid) if n.cid in order else 10 ** 6)
+            return Lst(definite)
         return Found(definite, maybe, f"find_type({tname.replace('Expression', '')},{selfv.cid})")
+
+    def _inorder(self, it: Interp, hv: HeapView, cid: int, depth: int = 0) -> List[int]:
+        if depth > 60:
+            return []
+        out: List[int] = []
+        l, _ = hv.get(cid, "left", "cur")
+        r, _ = hv.get(cid, "right", "cur")
+        if isinstance(l, Node):
+            out += self._inorder(it, hv, l.cid, depth + 1)
+        out.append(cid)
+        if isinstance(r, Node):
+            out += self._inorder(it, hv, r.cid, depth + 1)
+        return out
 
     def h_all_changed(self, it: Interp, info, args, kwargs):
         selfv = args[0]
